@@ -84,6 +84,16 @@ func (im *impl) execDeep(h *vh.H, op string, nodes []*node) string {
 	cmd.Stderr = &tailWriter{buf: &stderr, max: 1 << 16}
 	t0 := time.Now()
 	runErr := cmd.Run()
+	if runErr != nil && !strings.Contains(stderr.String(), "goroutine stack exceeds") && cmd.ProcessState != nil && cmd.ProcessState.ExitCode() == -1 {
+		// killed by a signal without a message of its own (the OOM killer of the shared machine): once more
+		h.Count("deep.child.killed-retry")
+		stderr.Reset()
+		cmd = exec.Command(os.Args[0], cmd.Args[1:]...)
+		cmd.Env = append(os.Environ(), "CODEC_DEEP_CHILD=1", "CODEC_STREAM=codec.stress")
+		cmd.Stderr = &tailWriter{buf: &stderr, max: 1 << 16}
+		t0 = time.Now()
+		runErr = cmd.Run()
+	}
 	dur := time.Since(t0)
 	if runErr == nil {
 		out, _ := os.ReadFile(filepath.Join(dir, "out", "go.out"))
